@@ -85,10 +85,22 @@ func verifC01(ssa bool) {
 		names = append(names, "b")
 	}
 	hook := verifConstHook(nil, map[string]interface{}{"phase": "ok"}, false)
+	// the hook may echo the annotations of the observed child it is shown
+	echo := rt.Bool("hook-echoes-annotations")
 	hook.fn = func(req *v1.CompositeHookRequest) (*v1.CompositeHookResponse, error) {
 		var kids []*unstructured.Unstructured
 		for _, n := range names {
-			kids = append(kids, mkDesired(n))
+			d := mkDesired(n)
+			if echo {
+				for _, group := range req.Children {
+					if seen := group[n]; seen != nil {
+						for k, v := range seen.GetAnnotations() {
+							env.SetAnnotation(d, k, v)
+						}
+					}
+				}
+			}
+			kids = append(kids, d)
 		}
 		return &v1.CompositeHookResponse{Children: kids, Status: map[string]interface{}{"phase": "ok"}}, nil
 	}
